@@ -104,6 +104,8 @@ func (f Frame) Message() proto.Message {
 		return &wrapperspb.Int64Value{Value: f.Int}
 	case "list":
 		return f.listMessage(newList(f.Payload))
+	case "rawm":
+		return &RawM{B: append([]byte(nil), f.Payload...)}
 	}
 	return &emptypb.Empty{}
 }
@@ -130,6 +132,8 @@ func (f Frame) Fresh() proto.Message {
 		return &wrapperspb.Int64Value{}
 	case "list":
 		return f.listMessage(&structpb.ListValue{})
+	case "rawm":
+		return &RawM{}
 	}
 	return &emptypb.Empty{}
 }
@@ -158,6 +162,8 @@ func (f Frame) Dirty() proto.Message {
 		return &wrapperspb.Int64Value{Value: 7777}
 	case "list":
 		return f.listMessage(dirtyList())
+	case "rawm":
+		return &RawM{B: stale}
 	}
 	return &emptypb.Empty{}
 }
@@ -203,6 +209,8 @@ func (f Frame) SameContent(m proto.Message) (bool, string) {
 		return hx(bytes.Equal(x.B, f.Payload), x.B)
 	case *RawV:
 		return hx(bytes.Equal(x.B, f.Payload), x.B)
+	case *RawM:
+		return hx(bytes.Equal(x.B, f.Payload), x.B)
 	case *wrapperspb.BytesValue:
 		return hx(bytes.Equal(x.Value, f.Payload), x.Value)
 	case *BytesV:
@@ -237,7 +245,7 @@ func varint(v uint64) []byte {
 // Body is the hand-written encoding of the frame's message body.
 func (f Frame) Body() []byte {
 	switch f.Kind {
-	case "raw":
+	case "raw", "rawm":
 		return append([]byte(nil), f.Payload...)
 	case "bytes", "string":
 		if len(f.Payload) == 0 {
